@@ -27,6 +27,7 @@ EXPLANATION = (
     "the branch types they visit; R01.8 every CTE name is registered before any CTE body is extracted. Does not decide: that the tables "
     "found are the right ones once a path exists (alias extraction, target detection by keyword scan per dialect)."
     ' R01.10-R01.12 are shared clauses: parts of a dotted name are normalised one by one (= R07.3), CTE candidates are decided on the text (= R08.3), no cache or memo shared between analyzers is keyed by the text alone (= R12.2).'
+    ' R01.12 also covers evaluated-once default arguments, module-level state and (= R05.3) extractors kept across statements; R01.14 nothing discovered is dropped because it shares a label (no iteration over the values of a dictionary keyed by a part of its values).'
 )
 RULE_TEXT = (
     "R01.1: per extractor and per listed statement type; R01.2: per distinct segment-type literal; R01.5: per (context clause, parent type, "
